@@ -18,4 +18,5 @@ CARGO_TARGET_DIR="$ROOT/target/plain" cargo build --offline --release -p sim_ext
 RUSTFLAGS="--cfg rten_verif" CARGO_TARGET_DIR="$ROOT/target/a" cargo build --offline --release -p sim_exec || fail=1
 RUSTFLAGS='--cfg rten_verif="shuttle_pool"' CARGO_TARGET_DIR="$ROOT/target/c" cargo build --offline --release -p sim_pool || fail=1
 ( MIRIFLAGS="-Zmiri-many-seeds=0..1" CARGO_TARGET_DIR="$ROOT/target/miri" cargo +nightly miri run --offline -p sim_pool_miri -- 1 0 1 >/dev/null 2>&1 ) || fail=1
+( cd "$ROOT/sim/shadow" && python3 gen_shadow.py && RUSTFLAGS='--cfg rten_verif --cfg rten_verif="shuttle_plan"' CARGO_TARGET_DIR="$ROOT/target/b" cargo build --offline --release -p sim_session ) || fail=1
 exit $fail
